@@ -29,6 +29,20 @@ CLAIMED = {
         "Third-party verification primitives are trusted to raise as documented; name-based receiver resolution inside tls.Context.",
         "DESIGN.md#c03",
     ),
+    "C05": (
+        "other",
+        "interprocedural exception-escape analysis (least fixpoint over a resolved call graph with function-value flow, try/except class-hierarchy filtering, precondition discharge at call sites by CFG guards and linear arithmetic), handler-table consistency, symbolic frame-capacity accounting",
+        "For the five API boundaries the set of exception classes that may propagate out is computed over every reachable function (about 300 functions, 2100 call sites, 94% resolved) from an explicit raise model (raise, assert, C helper raise summary, third-party table, partial operations on parsed data); every source is caught, converted, discharged by a dominating guard, or reported with its call chain. May-analysis: sound for the modelled sources on all paths, not for TypeErrors in general. Plus: conversion points exist, frame table consistent with the epoch tables, bytes pushed by every frame writer bounded by its declared capacity.",
+        "Unresolved calls are treated as not raising (rate floored at 90%, listed in evidence); 35 named suppressions with reasons in rules/suppressions.json (several with their justifying facts checked); write-side buffer overflow is an assumption except for frame writers.",
+        "DESIGN.md#c05",
+    ),
+    "C16": (
+        "other",
+        "same exception-escape engine at the HTTP/3 and HTTP/0.9 event boundaries; structural checks of the ProtocolError conversion, of the facts behind each suppression, and of close-frame emission",
+        "Every exception source reachable from H3Connection.handle_event / H0Connection.handle_event is caught, converted or discharged on all paths; ProtocolError is converted into close(error_code, reason); the closing packet is emitted for any reason phrase (truncation + QuicPacketBuilderStop caught).",
+        "pylsqpack raise behaviour from a table; one assumption about resume_header; TypeErrors not modelled.",
+        "DESIGN.md#c16",
+    ),
 }
 
 NOT_APPLICABLE = {
